@@ -8,6 +8,7 @@ import (
 	"strings"
 
 	"pgregory.net/rapid"
+	"verif/harness/engine"
 )
 
 // Bars is a generated OHLCV series plus a free numeric series X (may hold zeros and negatives)
@@ -363,6 +364,17 @@ func (b Bars) Valid() bool {
 // GenLen draws an input length biased to the interesting regime around the warm-up w:
 // [0, 2w+3] in most draws, with a tail up to a few hundred.
 func GenLen(t *rapid.T, w int, tail int) int {
+	// rarely (about one draw in 600, one in 100 in the thorough tier; an interior value is asked
+	// for because rapid's integer generator favours the bounds of a range): a long input just
+	// around a power of two between 2^8 and 2^13 - block sizes, re-synchronisation intervals and
+	// buffer limits live there
+	rate, hit := 249, 137
+	if engine.Thorough() {
+		rate, hit = 49, 23
+	}
+	if rapid.IntRange(0, rate).Draw(t, "long_input") == hit {
+		return 1<<rapid.IntRange(8, 13).Draw(t, "len_log2") + rapid.IntRange(-3, 40).Draw(t, "len_off")
+	}
 	k := rapid.IntRange(0, 9).Draw(t, "len_class")
 	switch {
 	case k < 2:
